@@ -23,12 +23,56 @@ def build():
     u.take("acmed/src/logs.rs", "HasLogger", "logs")
     u.module("account", "use crate::*;\nuse crate::shims::*;\nuse crate::logs::HasLogger;\nuse crate::acme_common::error::Error;\n"
              "use std::collections::HashMap;\nuse std::time::SystemTime;")
-    u.raw("account", "pub mod contact { use vstd::prelude::*; verus! { pub struct AccountContact { pub opaque: u8 } } }\n", trusted=True)
+    u.raw("account", "pub mod contact { use vstd::prelude::*; verus! { pub struct AccountContact { pub opaque: u8 } impl Clone for AccountContact { fn clone(&self) -> (r: Self) ensures r == *self { AccountContact { opaque: self.opaque } } } } }\n", trusted=True)
     for t in ["ExternalAccount", "AccountKey", "AccountEndpoint", "Account"]:
         u.take(A, t, "account")
     u.verify(A, "impl HasLogger for Account", "account", props=["C11"])
     u.raw("account", SPEC)
     u.raw("account", STUBS, trusted=True)
+    u.raw("account", PROTO_STUBS, trusted=True)
+    GET = ("T-MAP", r"self\.endpoints\.get\(endpoint_name\)", "crate::shims::eps_get(&self.endpoints, endpoint_name)")
+    GETM = ("T-MAP", r"self\.endpoints\.get_mut\(endpoint_name\)", "crate::shims::eps_get_mut(&mut self.endpoints, endpoint_name)")
+    u.verify(A, "Account::get_endpoint", "account", props=["C11"], fns={"get_endpoint": FnSpec(ret="r", sig="""
+    ensures match r { Ok(ep) => ep_of(*self, endpoint_name@) == Some(*ep), Err(_) => ep_of(*self, endpoint_name@) is None }, //@C11.endpoint_record_is_the_one_stored_under_the_endpoint_name
+""", rewrites=[GET])})
+    u.verify(A, "Account::get_endpoint_mut", "account", props=["C11"], fns={"get_endpoint_mut": FnSpec(ret="r", sig="""
+    ensures match r {
+        Ok(ep) => ep_of(*old(self), endpoint_name@) == Some(*ep) && only_endpoint_changed(*old(self), *final(self), endpoint_name@, *final(ep)),
+        Err(_) => ep_of(*old(self), endpoint_name@) is None && same_but_endpoints(*old(self), *final(self)) && eps_map(final(self).endpoints) == eps_map(old(self).endpoints) }, //@C11.endpoint_record_is_the_one_stored_under_the_endpoint_name
+""", rewrites=[GETM])})
+    u.verify(A, "AccountEndpoint::new", "account", props=["C11"], fns={"new": FnSpec(ret="r", sig="""
+    ensures r.account_url@.len() == 0 && r.orders_url@.len() == 0 && r.key_hash@.len() == 0 && r.contacts_hash@.len() == 0 && r.external_account_hash@.len() == 0, //@C11.fresh_endpoint_record_means_not_registered
+""", rewrites=[("T-CONST-STD", r"SystemTime::UNIX_EPOCH", "crate::shims::unix_epoch()")])})
+    u.verify(A, "Account::add_endpoint_name", "account", props=["C11"], fns={"add_endpoint_name": FnSpec(sig="""
+    ensures same_but_endpoints(*old(self), *final(self)),
+        // an endpoint already known keeps what is stored for it (account URL, fingerprints); a new one starts unregistered
+        ep_of(*old(self), endpoint_name@) is Some ==> eps_map(final(self).endpoints) == eps_map(old(self).endpoints), //@C11.known_endpoint_record_is_kept
+        ep_of(*old(self), endpoint_name@) is None ==> (ep_of(*final(self), endpoint_name@) matches Some(ep) && ep.account_url@.len() == 0
+            && forall|n: Seq<char>| n != endpoint_name@ ==> ep_of(*final(self), n) == ep_of(*old(self), n)), //@C11.new_endpoint_starts_unregistered
+""", rewrites=[("T-MAP", r"self\.endpoints\s*\.entry\(endpoint_name\.to_string\(\)\)\s*\.or_insert_with\(AccountEndpoint::new\);",
+                "crate::shims::eps_entry_or_insert_with(&mut self.endpoints, endpoint_name.to_string(), || -> (e__: AccountEndpoint) ensures e__.account_url@.len() == 0 { AccountEndpoint::new() });")])})
+    def setter(field, value_spec, label, extra=""):
+        others = [f for f in ["creation_date", "account_url", "orders_url", "key_hash", "contacts_hash", "external_account_hash"] if f != field]
+        keep = " && ".join(f"n.{f} == o.{f}" for f in others)
+        return f"""
+    ensures
+        // only this endpoint's `{field}` changes: the other endpoints, the keys (current and superseded), the contacts stay as they are
+        r is Ok ==> (ep_of(*old(self), endpoint_name@) matches Some(o) && ep_of(*final(self), endpoint_name@) matches Some(n)
+            && only_endpoint_changed(*old(self), *final(self), endpoint_name@, n) && {keep} && {value_spec}), //@C11.{label}
+        r is Err ==> same_but_endpoints(*old(self), *final(self)) && eps_map(final(self).endpoints) == eps_map(old(self).endpoints), {extra}
+"""
+    u.verify(A, "Account::set_account_url", "account", props=["C11"], fns={"set_account_url": FnSpec(ret="r", sig=setter("account_url", "n.account_url@ == account_url@", "account_url_stored_for_this_endpoint_only"))})
+    u.verify(A, "Account::set_orders_url", "account", props=["C11"], fns={"set_orders_url": FnSpec(ret="r", sig=setter("orders_url", "n.orders_url@ == orders_url@", "orders_url_stored_for_this_endpoint_only"))})
+    u.verify(A, "Account::update_key_hash", "account", props=["C11"], fns={"update_key_hash": FnSpec(ret="r", sig=setter("key_hash", "n.key_hash@ == key_fp(old(self).current_key)", "key_fingerprint_refreshed_for_this_endpoint_only"))})
+    u.verify(A, "Account::update_contacts_hash", "account", props=["C11"], fns={"update_contacts_hash": FnSpec(ret="r", sig=setter("contacts_hash", "n.contacts_hash@ == contacts_fp(old(self).contacts@)", "contacts_fingerprint_refreshed_for_this_endpoint_only"))})
+    u.verify(A, "Account::update_external_account_hash", "account", props=["C11"], fns={"update_external_account_hash": FnSpec(ret="r", sig="""
+    ensures
+        r is Ok && old(self).external_account is None ==> same_but_endpoints(*old(self), *final(self)) && eps_map(final(self).endpoints) == eps_map(old(self).endpoints),
+        r is Ok && old(self).external_account is Some ==> (ep_of(*old(self), endpoint_name@) matches Some(o) && ep_of(*final(self), endpoint_name@) matches Some(n)
+            && only_endpoint_changed(*old(self), *final(self), endpoint_name@, n) && n.creation_date == o.creation_date && n.account_url == o.account_url && n.orders_url == o.orders_url
+            && n.key_hash == o.key_hash && n.contacts_hash == o.contacts_hash && n.external_account_hash@ == eab_fp(old(self).external_account.unwrap())), //@C11.binding_fingerprint_refreshed_for_this_endpoint_only
+        r is Err ==> same_but_endpoints(*old(self), *final(self)) && eps_map(final(self).endpoints) == eps_map(old(self).endpoints),
+""")})
     u.verify(A, "Account::synchronize", "account", props=["C11"], fns={"synchronize": FnSpec(ret="r", ghost=True, sig="""
     requires stored_in_step(*old(self), old(endpoint).name@, *old(w)),
     ensures
@@ -54,6 +98,8 @@ def build():
                             || n == o.push(Req::KeyChange).push(Req::NewAccount).push(Req::ContactUpdate).push(Req::NewAccount))
                 }))
         }), //@C11.one_request_per_changed_item_registration_only_when_needed
+        // whatever has been changed at the CA has been recorded in the account file
+        r is Ok && final(w).requests != old(w).requests ==> final(w).saved == Some(*final(self)), //@C11.account_file_holds_what_has_been_recorded
         final(endpoint).name == old(endpoint).name,
 """, rewrites=[("T-CMP", r"(?P<a>external_account_hash|ct_hash|key_hash) (?P<op>!=|==) (?P<b>acc_ep\.\w+)", vec_cmp, 3)])})
     u.verify(A, "Account::update_keys", "account", props=["C11"], fns={"update_keys": FnSpec(ret="r", ghost=True, sig="""
@@ -63,7 +109,7 @@ def build():
         r is Ok && (old(self).current_key.key.key_type != key_type || old(self).current_key.signature_algorithm != signature_algorithm) ==>
             final(self).past_keys@ == old(self).past_keys@.push(old(self).current_key)
             && final(self).current_key.key.key_type == key_type && final(self).current_key.signature_algorithm == signature_algorithm
-            && final(w).saves == old(w).saves + 1, //@C11.superseded_key_is_kept_and_saved
+            && final(w).saves == old(w).saves + 1 && final(w).saved == Some(*final(self)), //@C11.superseded_key_is_kept_and_saved
         r is Ok && !(old(self).current_key.key.key_type != key_type || old(self).current_key.signature_algorithm != signature_algorithm) ==>
             *final(self) == *old(self) && final(w).saves == old(w).saves, //@C11.unchanged_key_is_left_alone
         final(w).requests == old(w).requests,
@@ -86,6 +132,8 @@ pub tracked struct World {
     pub ghost ca_eab: Seq<u8>,
     pub ghost requests: Seq<Req>,
     pub ghost saves: nat,
+    pub ghost saved: Option<crate::account::Account>,   // the account as last written to its file
+    pub ghost ca_unknown: bool,       // the CA's latest answer was `accountDoesNotExist`
 }
 pub mod shims {
     use vstd::prelude::*;
@@ -95,6 +143,9 @@ pub mod shims {
     #[verifier::external_body]
     pub struct ExSystemTime(std::time::SystemTime);
     pub assume_specification [std::time::SystemTime::now] () -> std::time::SystemTime;
+    // std::time::SystemTime::UNIX_EPOCH (rule T-CONST-STD)
+    #[verifier::external_body]
+    pub fn unix_epoch() -> std::time::SystemTime { std::time::SystemTime::UNIX_EPOCH }
     #[derive(Clone, Copy, PartialEq)]
     pub struct KeyType { pub id: u8 }
     #[derive(Clone, Copy, PartialEq)]
@@ -117,18 +168,53 @@ pub mod shims {
     #[verifier::external_body]
     pub fn bytes_ne(a: &Vec<u8>, b: &Vec<u8>) -> (r: bool) ensures r == (a@ != b@) { a != b }
     pub struct FileManager { pub opaque: u8 }
-    pub struct Endpoint { pub name: String }
+    // HashMap<String, AccountEndpoint> (rule T-MAP): seen as a map from endpoint names
+    pub uninterp spec fn eps_map(h: std::collections::HashMap<String, crate::account::AccountEndpoint>) -> Map<Seq<char>, crate::account::AccountEndpoint>;
+    // H.get(K)
+    #[verifier::external_body]
+    pub fn eps_get<'a>(h: &'a std::collections::HashMap<String, crate::account::AccountEndpoint>, k: &str) -> (r: Option<&'a crate::account::AccountEndpoint>)
+        ensures match r { Some(e) => eps_map(*h).dom().contains(k@) && *e == eps_map(*h)[k@], None => !eps_map(*h).dom().contains(k@) }
+    { h.get(k) }
+    // H.get_mut(K): what is written through the returned reference is what the map holds for K afterwards
+    #[verifier::external_body]
+    pub fn eps_get_mut<'a>(h: &'a mut std::collections::HashMap<String, crate::account::AccountEndpoint>, k: &str) -> (r: Option<&'a mut crate::account::AccountEndpoint>)
+        ensures match r {
+            Some(e) => eps_map(*old(h)).dom().contains(k@) && *e == eps_map(*old(h))[k@] && eps_map(*final(h)) == eps_map(*old(h)).insert(k@, *final(e)),
+            None => !eps_map(*old(h)).dom().contains(k@) && eps_map(*final(h)) == eps_map(*old(h)) }
+    { h.get_mut(k) }
+    // H.entry(K).or_insert_with(F): an absent key gets F's value, a present one is left alone
+    #[verifier::external_body]
+    pub fn eps_entry_or_insert_with<F: FnOnce() -> crate::account::AccountEndpoint>(h: &mut std::collections::HashMap<String, crate::account::AccountEndpoint>, k: String, f: F)
+        requires f.requires(())
+        ensures eps_map(*old(h)).dom().contains(k@) ==> eps_map(*final(h)) == eps_map(*old(h)),
+            !eps_map(*old(h)).dom().contains(k@) ==> exists|v: crate::account::AccountEndpoint| f.ensures((), v) && eps_map(*final(h)) == eps_map(*old(h)).insert(k@, v),
+    { h.entry(k).or_insert_with(f); }
+    pub struct Directory { pub new_account: String, pub key_change: String }
+    pub struct Endpoint { pub name: String, pub dir: Directory, pub tos_agreed: bool }
     }
 }
 """
 
 SPEC = """
 // fingerprints (SHA-256 of the public key PEM / of the contact list / of the binding key and identifier): uninterpreted
-pub uninterp spec fn key_fp(k: AccountKey) -> Seq<u8>;
+// hash_key: SHA-256 of the PEM of the public key - a function of the key pair only
+pub uninterp spec fn kp_fp(k: KeyPair) -> Seq<u8>;
+pub open spec fn key_fp(k: AccountKey) -> Seq<u8> { kp_fp(k.key) }
 pub uninterp spec fn contacts_fp(c: Seq<contact::AccountContact>) -> Seq<u8>;
 pub uninterp spec fn eab_fp(e: ExternalAccount) -> Seq<u8>;
-// the per-endpoint record of an account (HashMap lookup by endpoint name)
-pub uninterp spec fn ep_of(a: Account, name: Seq<char>) -> Option<AccountEndpoint>;
+// the per-endpoint records of an account (HashMap<String, AccountEndpoint> seen as a map from endpoint names)
+pub open spec fn ep_of(a: Account, name: Seq<char>) -> Option<AccountEndpoint> {
+    if eps_map(a.endpoints).dom().contains(name) { Some(eps_map(a.endpoints)[name]) } else { None }
+}
+// everything of an account except its per-endpoint records
+pub open spec fn same_but_endpoints(a: Account, b: Account) -> bool {
+    a.name == b.name && a.contacts == b.contacts && a.current_key == b.current_key && a.past_keys == b.past_keys
+    && a.external_account == b.external_account && a.file_manager == b.file_manager
+}
+// b is a with the record of endpoint `name` replaced by `ep` (every other endpoint, and everything else, untouched)
+pub open spec fn only_endpoint_changed(a: Account, b: Account, name: Seq<char>, ep: AccountEndpoint) -> bool {
+    same_but_endpoints(a, b) && eps_map(b.endpoints) == eps_map(a.endpoints).insert(name, ep)
+}
 pub open spec fn eab_changed(a: Account, ep: AccountEndpoint) -> bool {
     a.external_account matches Some(ec) && eab_fp(ec) != ep.external_account_hash@
 }
@@ -150,6 +236,7 @@ pub open spec fn same_config(a: Account, b: Account) -> bool {
 """
 
 STUBS = """
+impl Clone for ExternalAccount { #[verifier::external_body] fn clone(&self) -> (r: Self) ensures r == *self { unimplemented!() } }
 impl Clone for AccountKey { #[verifier::external_body] fn clone(&self) -> (r: Self) ensures r == *self { unimplemented!() } }
 impl AccountKey {
     // account.rs::AccountKey::new
@@ -158,13 +245,10 @@ impl AccountKey {
         ensures r matches Ok(k) ==> k.key.key_type == key_type && k.signature_algorithm == signature_algorithm { unimplemented!() }
 }
 impl Account {
-    #[verifier::external_body]
-    pub fn get_endpoint(&self, endpoint_name: &str) -> (r: Result<&AccountEndpoint, Error>)
-        ensures match r { Ok(ep) => ep_of(*self, endpoint_name@) == Some(*ep), Err(_) => ep_of(*self, endpoint_name@) is None } { unimplemented!() }
     // storage::save: the account file is rewritten (C02 / persistence in unit storage)
     #[verifier::external_body]
     pub fn save(&self, Tracked(w): Tracked<&mut World>) -> (r: Result<(), Error>)
-        ensures final(w).saves == old(w).saves + 1, final(w).requests == old(w).requests,
+        ensures final(w).saves == old(w).saves + 1, final(w).requests == old(w).requests, final(w).saved == Some(*self),
             final(w).ca_key == old(w).ca_key, final(w).ca_contacts == old(w).ca_contacts, final(w).ca_eab == old(w).ca_eab { unimplemented!() }
 }
 #[verifier::external_body]
@@ -174,11 +258,20 @@ fn hash_key(key: &AccountKey) -> (r: Result<Vec<u8>, Error>) ensures r matches O
 #[verifier::external_body]
 fn hash_external_account(ec: &ExternalAccount) -> (r: Vec<u8>) ensures r@ == eab_fp(*ec) { unimplemented!() }
 
+"""
+
+# the three account requests (acme_proto/account.rs) as contracts over what the CA holds; *verified* in unit acctproto,
+# used here as the callee contracts of synchronize (same text, see PROTO_SIG)
+PROTO_STUBS = """
 // ---- the three account requests (acme_proto/account.rs), as contracts over what the CA holds.
 // Every request except newAccount is signed by a key: the CA accepts it only if that is the key it has on record.
 #[verifier::external_body]
 pub fn register_account(endpoint: &mut Endpoint, account: &mut Account, Tracked(w): Tracked<&mut World>) -> (r: Result<(), Error>)
+    requires
+        // an account is created only when no account URL is stored for the endpoint, the external binding changed, or the CA reports the account unknown
+        old(w).ca_unknown || (ep_of(*old(account), old(endpoint).name@) matches Some(ep) ==> ep.account_url@.len() == 0 || eab_changed(*old(account), ep)), //@C11.account_created_only_when_needed
     ensures final(endpoint).name == old(endpoint).name, same_config(*final(account), *old(account)),
+        r is Ok ==> final(w).saved == Some(*final(account)), //@C11.account_file_holds_what_has_been_recorded
         r is Ok ==> final(w).requests == old(w).requests.push(Req::NewAccount)
             && ca_in_step_with_config(*final(account), *final(w)) && stored_in_step(*final(account), final(endpoint).name@, *final(w))
             && (ep_of(*final(account), final(endpoint).name@) matches Some(ep) && ep.account_url@.len() > 0),
@@ -188,27 +281,42 @@ pub fn update_account_contacts(endpoint: &mut Endpoint, account: &mut Account, T
     requires
         // signed with the account's current key: that must be the key the CA has on record
         key_fp(old(account).current_key) == old(w).ca_key, //@C11.contact_update_is_signed_by_the_key_the_ca_holds
+        // only for an account that is registered on this endpoint, once its key is in step
+        ep_of(*old(account), old(endpoint).name@) matches Some(ep) && ep.account_url@.len() > 0 && ep.key_hash@ == old(w).ca_key,
     ensures final(endpoint).name == old(endpoint).name, same_config(*final(account), *old(account)),
+        r is Ok ==> final(w).saved == Some(*final(account)), //@C11.account_file_holds_what_has_been_recorded
         r is Ok ==> (final(w).requests == old(w).requests.push(Req::ContactUpdate)
-                || final(w).requests == old(w).requests.push(Req::ContactUpdate).push(Req::NewAccount))
-            && final(w).ca_contacts == contacts_fp(final(account).contacts@) && final(w).ca_key == key_fp(final(account).current_key)
-            && stored_in_step(*final(account), final(endpoint).name@, *final(w))
-            && (ep_of(*final(account), final(endpoint).name@) matches Some(ep) && ep.account_url@.len() > 0),
+                || final(w).requests == old(w).requests.push(Req::ContactUpdate).push(Req::NewAccount)), //@C11.contact_update_is_one_request
+        r is Ok ==> final(w).ca_contacts == contacts_fp(final(account).contacts@) && final(w).ca_key == key_fp(final(account).current_key), //@C11.ca_holds_the_configured_contacts_afterwards
+        r is Ok ==> stored_in_step(*final(account), final(endpoint).name@, *final(w)), //@C11.stored_fingerprints_describe_the_ca
+        r is Ok ==> (ep_of(*final(account), final(endpoint).name@) matches Some(ep) && ep.account_url@.len() > 0),
 { unimplemented!() }
 #[verifier::external_body]
 pub fn update_account_key(endpoint: &mut Endpoint, account: &mut Account, Tracked(w): Tracked<&mut World>) -> (r: Result<(), Error>)
     requires
         // the roll-over is authorised by the superseded key whose fingerprint is stored: that must be the key the CA holds
         ep_of(*old(account), old(endpoint).name@) matches Some(ep) && ep.key_hash@ == old(w).ca_key, //@C11.key_rollover_is_authorised_by_the_key_the_ca_holds
+        ep_of(*old(account), old(endpoint).name@) matches Some(ep) && ep.account_url@.len() > 0,
     ensures final(endpoint).name == old(endpoint).name, same_config(*final(account), *old(account)),
+        r is Ok ==> final(w).saved == Some(*final(account)), //@C11.account_file_holds_what_has_been_recorded
         r is Ok ==> (final(w).requests == old(w).requests.push(Req::KeyChange)
-                || final(w).requests == old(w).requests.push(Req::KeyChange).push(Req::NewAccount))
-            && final(w).ca_key == key_fp(final(account).current_key)
-            && (final(w).requests == old(w).requests.push(Req::KeyChange) ==> final(w).ca_contacts == old(w).ca_contacts
+                || final(w).requests == old(w).requests.push(Req::KeyChange).push(Req::NewAccount)), //@C11.key_change_is_one_request
+        r is Ok ==> final(w).ca_key == key_fp(final(account).current_key), //@C11.ca_holds_the_current_key_afterwards
+        r is Ok ==> (final(w).requests.len() == old(w).requests.len() + 1 ==> final(w).ca_contacts == old(w).ca_contacts
                     && (ep_of(*final(account), final(endpoint).name@) matches Some(ep2) && ep_of(*old(account), old(endpoint).name@) matches Some(ep1)
-                        && ep2.contacts_hash == ep1.contacts_hash && ep2.key_hash@ == final(w).ca_key && ep2.account_url == ep1.account_url))
-            && (final(w).requests != old(w).requests.push(Req::KeyChange) ==> ca_in_step_with_config(*final(account), *final(w)))
-            && stored_in_step(*final(account), final(endpoint).name@, *final(w))
-            && (ep_of(*final(account), final(endpoint).name@) matches Some(ep) && ep.account_url@.len() > 0),
+                        && ep2.contacts_hash == ep1.contacts_hash && ep2.key_hash@ == final(w).ca_key && ep2.account_url == ep1.account_url)), //@C11.key_change_touches_the_key_only
+        r is Ok ==> (final(w).requests.len() != old(w).requests.len() + 1 ==> ca_in_step_with_config(*final(account), *final(w))),
+        r is Ok ==> (final(w).requests.len() != old(w).requests.len() + 1 ==> stored_in_step(*final(account), final(endpoint).name@, *final(w))),
+        r is Ok ==> (ep_of(*final(account), final(endpoint).name@) matches Some(ep) && ep.account_url@.len() > 0),
 { unimplemented!() }
 """
+
+
+def proto_sigs():
+    """the requires/ensures text of the three protocol contracts (shared with unit acctproto, which proves them)"""
+    import re
+    out = {}
+    for m in re.finditer(r"pub fn (\w+)\(endpoint: &mut Endpoint, account: &mut Account, Tracked\(w\): Tracked<&mut World>\) -> \(r: Result<\(\), Error>\)\n(?P<sig>.*?)\{ unimplemented!\(\) \}", PROTO_STUBS, re.S):
+        out[m.group(1)] = m.group("sig")
+    assert set(out) == {"register_account", "update_account_contacts", "update_account_key"}
+    return out
